@@ -202,6 +202,12 @@ def compareStr (maxLen : Nat) (e : Entry) (a b : Bytes) : Outcome Int :=
 def latestStr (maxLen : Nat) (e : Entry) (a b : Bytes) : Outcome Ver :=
   (parseEntry maxLen e a).bind fun av => (parseEntry maxLen e b).bind fun bv => .ok (av.latest bv)
 
+/-- `v.IsZero()`: 0.0.0 with empty pre-release and build -/
+def Ver.isZero (v : Ver) : Bool := v.major == 0 && v.minor == 0 && v.patch == 0 && v.pre == [] && v.build == []
+
+/-- `v.Core()`: the version without pre-release and build -/
+def Ver.core (v : Ver) : Ver := ⟨v.major, v.minor, v.patch, [], []⟩
+
 /-- `NextMajor/NextMinor/NextPatch`: `bits.Add64` carry → panic -/
 def Ver.nextMajor (v : Ver) : Outcome Ver :=
   if v.major + 1 ≥ two64 then .panic else .ok ⟨v.major + 1, 0, 0, [], []⟩
